@@ -100,4 +100,66 @@ example : (Frame.head [([97], { name := [97], data := [.int .int 1, .int .int 2,
 theorem head_pinned_panics :
     (Frame.headPinned [([97], { name := [97], data := [.int .int 1] })] (-1)).isPanic = true := by decide
 
+/-! ### consequences: Head and Tail split the frame; an over-long Head is a copy -/
+private theorem range_getD (d : List Cell) : (List.range d.length).map (fun i => d.getD i .nil) = d := by
+  apply List.ext_getElem
+  · simp
+  · intro i h1 h2
+    simp [List.getD_eq_getElem?_getD, List.getElem?_eq_getElem h2]
+
+private theorem rowsOf_col' {f : Frame} {n : Nat} (hs : f.Sorted) (hr : f.RectN n) {kc : Str × Col} (hk : kc ∈ f) :
+    (Spec.rowsOf f).map (fun r => Row.getD r kc.1) = kc.2.data := by
+  unfold Spec.rowsOf
+  rw [List.map_map]
+  have hn : f.nrows = n := Frame.nrows_of_rectN hr (List.ne_nil_of_mem hk)
+  have hl : kc.2.data.length = n := (hr kc hk).1
+  rw [hn, ← hl]
+  conv => rhs; rw [← range_getD kc.2.data]
+  apply List.map_congr_left
+  intro i _
+  exact Row.getD_rowMap_of_mem hs (k := kc.1) (c := kc.2) hk i
+
+/-- `Head(c)` and `Tail(n − c)` split the frame: for every column, the head's cells followed by the tail's cells
+are the column's cells — no row lost, repeated or moved (`0 ≤ c ≤ n`) -/
+theorem head_tail_partition {f h t : Frame} {n : Nat} (hs : f.Sorted) (hr : f.RectN n) (hn : (n : Int) < 2 ^ 62)
+    (c : Nat) (hc : c ≤ n) (hh : f.head c = .ok h) (ht : f.tail ((n : Int) - c) = .ok t) :
+    ∀ kc ∈ f, ∃ ch ct, (kc.1, ch) ∈ h ∧ (kc.1, ct) ∈ t ∧ ch.data ++ ct.data = kc.2.data := by
+  intro kc hk
+  rw [head_eq hs hr] at hh
+  rw [tail_eq hs hr _ hn] at ht
+  cases hh; cases ht
+  have hnr : f.nrows = n := Frame.nrows_of_rectN hr (List.ne_nil_of_mem hk)
+  have hkk : kc.1 ∈ f.keys := List.mem_map.mpr ⟨kc, hk, rfl⟩
+  refine ⟨_, _, List.mem_map.mpr ⟨kc.1, hkk, rfl⟩, List.mem_map.mpr ⟨kc.1, hkk, rfl⟩, ?_⟩
+  simp only []
+  rw [← List.map_append]
+  have e1 : (Spec.clamp (c : Int) 0 f.nrows).toNat = c := by
+    unfold Spec.clamp; rw [hnr]; split
+    · omega
+    · split <;> omega
+  have e2 : f.nrows - (Spec.clamp ((n : Int) - c) 0 f.nrows).toNat = c := by
+    unfold Spec.clamp; rw [hnr]; split
+    · omega
+    · split <;> omega
+  rw [e1, e2, List.take_append_drop]
+  exact rowsOf_col' hs hr hk
+
+/-- asking for at least as many rows as there are returns every cell of every column (a copy) -/
+theorem head_all {f h : Frame} {n : Nat} (hs : f.Sorted) (hr : f.RectN n) (c : Int) (hc : (n : Int) ≤ c)
+    (hh : f.head c = .ok h) : ∀ kc ∈ f, ∃ ch, (kc.1, ch) ∈ h ∧ ch.data = kc.2.data := by
+  intro kc hk
+  rw [head_eq hs hr] at hh
+  cases hh
+  have hnr : f.nrows = n := Frame.nrows_of_rectN hr (List.ne_nil_of_mem hk)
+  have hkk : kc.1 ∈ f.keys := List.mem_map.mpr ⟨kc, hk, rfl⟩
+  refine ⟨_, List.mem_map.mpr ⟨kc.1, hkk, rfl⟩, ?_⟩
+  simp only []
+  have e1 : (Spec.clamp c 0 f.nrows).toNat = n := by
+    unfold Spec.clamp; rw [hnr]; split
+    · omega
+    · split <;> omega
+  have hl : (Spec.rowsOf f).length = n := by unfold Spec.rowsOf; simp [hnr]
+  rw [e1, List.take_of_length_le (by omega)]
+  exact rowsOf_col' hs hr hk
+
 end Goframe.C08
